@@ -176,13 +176,21 @@ fn ix1_body<const NN: usize, const ND: usize, const NT: usize, const OBS: u8>(th
    let ct2 = cnt_add(&ct, &cd);
    if OBS == OBS_GET {
       check_ix1_get(total, &ct2, q);
-      check_ix1_get(delta, &cn, q);
-      check_ix1_get(new, &[[0u8; D]; D], q);
+      if NN > 0 {
+         check_ix1_get(delta, &cn, q);
+      } else {
+         assert!(delta.is_empty());
+      }
+      assert!(new.is_empty());
    }
    if OBS == OBS_ITER {
       check_ix1_iter(total, &ct2, q);
-      check_ix1_iter(delta, &cn, q);
-      check_ix1_iter(new, &[[0u8; D]; D], q);
+      if NN > 0 {
+         check_ix1_iter(delta, &cn, q);
+      } else {
+         assert!(delta.iter_all().next().is_none());
+      }
+      assert!(new.iter_all().next().is_none());
    }
    if OBS == OBS_COMBINED {
       check_combined_ix1(total, &ct2, delta, &cn, q);
@@ -212,20 +220,22 @@ macro_rules! ix1_harness {
       #[kani::stub(std::time::Instant::now, crate::stubs::instant_now)]
       #[kani::stub(std::time::Instant::elapsed, crate::stubs::instant_elapsed)]
       #[kani::stub(std::mem::swap, crate::stubs::mem_swap)]
+      #[kani::stub(alloc::alloc::realloc_nonnull, crate::stubs::realloc_is_out_of_bound)]
+      #[kani::stub(std::vec::Vec::append, crate::stubs::vec_append)]
       pub fn $name() { ix1_body::<$nn, $nd, $nt, $obs>($route) }
    };
 }
 
 // quick: at most 3 values under one key after the merge (unwind 5 covers every loop);
 // total' = total + delta is checked with `new` empty, delta' = new / new' = {} separately
-ix1_harness!(rel_index_type1_merge_get_d2_t1, 0, 2, 1, OBS_GET, false, 5);
-ix1_harness!(rel_index_type1_merge_get_d1_t2, 0, 1, 2, OBS_GET, false, 5);
-ix1_harness!(rel_index_type1_merge_iter_d2_t1, 0, 2, 1, OBS_ITER, false, 5);
-ix1_harness!(rel_index_type1_merge_iter_d1_t2, 0, 1, 2, OBS_ITER, false, 5);
-ix1_harness!(rel_index_type1_merge_new_to_delta_get, 2, 1, 0, OBS_GET, false, 5);
-ix1_harness!(rel_index_type1_merge_new_to_delta_iter, 2, 1, 0, OBS_ITER, false, 5);
-ix1_harness!(to_rel_index_type_merge_get_d2_t1, 0, 2, 1, OBS_GET, true, 5);
-ix1_harness!(to_rel_index_type_merge_new_to_delta_get, 2, 1, 0, OBS_GET, true, 5);
+ix1_harness!(rel_index_type1_merge_get_d2_t1, 0, 2, 1, OBS_GET, false, 4);
+ix1_harness!(rel_index_type1_merge_get_d1_t2, 0, 1, 2, OBS_GET, false, 4);
+ix1_harness!(rel_index_type1_merge_iter_d2_t1, 0, 2, 1, OBS_ITER, false, 4);
+ix1_harness!(rel_index_type1_merge_iter_d1_t2, 0, 1, 2, OBS_ITER, false, 4);
+ix1_harness!(rel_index_type1_merge_new_to_delta_get, 2, 1, 0, OBS_GET, false, 4);
+ix1_harness!(rel_index_type1_merge_new_to_delta_iter, 2, 1, 0, OBS_ITER, false, 4);
+ix1_harness!(to_rel_index_type_merge_get_d2_t1, 0, 2, 1, OBS_GET, true, 4);
+ix1_harness!(to_rel_index_type_merge_new_to_delta_get, 2, 1, 0, OBS_GET, true, 4);
 // thorough
 ix1_harness!(rel_index_type1_merge_combined_d2_t1_wide, 1, 2, 1, OBS_COMBINED, false, 5);
 ix1_harness!(rel_index_type1_merge_get_n1_d2_t1_wide, 1, 2, 1, OBS_GET, false, 5);
